@@ -160,5 +160,51 @@ prop(
     assumptions=["statistical tolerance: measured rate <= 1.6 p + 6 sigma + 0.002 for n >= 100"],
 )
 
+PIPE_TB = [KERNEL, AXIOMS, TDIFF, HOOKS + "; the verifEv hook call sites (add-only lines in ingest.go/flush.go/engine.go) report each internal step: a send/intent is logged before it happens or inside the lock that orders it, a receive after it happened",
+           "the trace normaliser in /verif/harness/pipeline.go (re-orders only what real happens-before permits: a completed send logged after the matching receive; Stop's hidden deadline/AfterFunc steps are made explicit)",
+           "modelled, not verified: Go channels, sync.RWMutex, context cancellation and the runtime scheduler (the LTS quantifies over every interleaving of its events; the harness validates that recorded runs of the real engine are runs of the LTS)"]
+PIPE_ASSUME = ["MaxBufferedRows > 0 (config validation rejects 0)", "liveness clauses ('the caller keeps receiving', wall-clock bounds) are monitored on the implementation with slack, not proved",
+               "store behaviour is arbitrary: a stalled store is a flushDone event that never comes, a failing store is flushDone false"]
+
+prop(
+    "C05",
+    lean_modules=["BloomVerif.Lemmas.Pipeline", "BloomVerif.Props.C05"],
+    technique="Lean 4 proof (inductive invariants over all event sequences of the pipeline LTS: conservation, at-most-once, graceful stop) + trace validation of recorded engine runs against the LTS + implementation monitors",
+    design_ref="DESIGN.md section 4 C05",
+    text="Machine-checked over every event sequence of the pipeline LTS (any interleaving of callers, actor, flush worker, store outcomes, Start, Stop with or without deadline, never-started engines): every accepted batch is answered or sits in exactly one pipeline stage "
+         "(conservation), none is answered twice, and once Stop has returned nil every accepted batch has been answered. The safety part is a proof; 'the caller keeps receiving' is liveness and is monitored. Recorded hook-event traces of randomised and "
+         "scripted schedules of the real engine must be runs of the LTS, and monitors count the values each done channel received.",
+    trusted_base=PIPE_TB, assumptions=PIPE_ASSUME,
+)
+
+prop(
+    "C07",
+    lean_modules=["BloomVerif.Lemmas.Pipeline", "BloomVerif.Props.C07"],
+    technique="Lean 4 proof (FIFO chain invariant: the unanswered batches in acceptance order are exactly worker ++ flushChan ++ parked ++ buffer ++ ingestChan) + trace validation + happens-before order monitor",
+    design_ref="DESIGN.md section 4 C07",
+    text="Machine-checked: in every reachable state the request being written holds the oldest unanswered batches, so when the flush worker delivers its verdict every batch accepted before any of its waiters is answered by the end of that step "
+         "(waiters of one request in acceptance order); Flush is one such waiter, hence a barrier. Tied by trace validation and by a monitor that, on every nil it observes, checks all batches whose IngestRows had returned before the nil's batch was submitted.",
+    trusted_base=PIPE_TB, assumptions=PIPE_ASSUME + ["'accepted earlier' for concurrent callers = IngestRows had returned before the later call began (DESIGN.md section 3); empty batches are exempt (acknowledged immediately by design)"],
+)
+
+prop(
+    "C08",
+    lean_modules=["BloomVerif.Lemmas.Pipeline", "BloomVerif.Props.C08"],
+    technique="Lean 4 proof (stopped is permanent and disables accept; Stop nil ⇒ drained; Stop error ⇒ flush context cancelled ⇒ flushBegin never enabled again) + trace validation incl. a context with late AfterFunc + timing monitors with slack",
+    design_ref="DESIGN.md section 4 C08",
+    text="Machine-checked on the LTS: after Stop has set stopped no request is accepted, ever; Stop returns nil only when nothing accepted is unanswered; in every state where Stop has returned the deadline error the flush context is cancelled and in every continuation no flush begins store work. "
+         "Partial: 'returns by roughly the deadline' is wall-clock behaviour, monitored (4x deadline + 200 ms). Scripted schedules wedge the store, abandon unbuffered channels and use a Context whose AfterFunc callbacks run late.",
+    trusted_base=PIPE_TB, assumptions=PIPE_ASSUME + ["'no further store work' = no flush request begins store work after Stop returned the error (a store call already in progress is not further work)"],
+)
+
+prop(
+    "C09",
+    lean_modules=["BloomVerif.Lemmas.Pipeline", "BloomVerif.Props.C09"],
+    technique="Lean 4 proof (size invariant of every pipeline stage ⇒ backlog ≤ IngestBufferSize + 4·MaxBufferedRows in every reachable state) + trace validation + measured backlog under stalled stores",
+    design_ref="DESIGN.md section 4 C09",
+    text="Machine-checked: in every reachable state the accepted-but-unanswered batches number at most IngestBufferSize + 4*MaxBufferedRows, whatever the stores do; a full ingest channel disables acceptance. The measured maximum backlog of recorded runs with stalled stores and several producers is compared with the bound.",
+    trusted_base=PIPE_TB, assumptions=PIPE_ASSUME + ["every non-empty batch carries at least one row, and the actor flushes as soon as MaxBufferedRows rows are buffered (tied by the C10 actor correspondence)"],
+)
+
 # Properties not claimed, with the reason (kept current; see DESIGN.md).
 NOT_CLAIMED = {}
